@@ -38,7 +38,8 @@
     the model on every caller, the oracle's known class is exactly its complement, and the necessity
     witnesses are replayed on sqlgen. *)
 From Coq Require Import List String Bool ZArith.
-From Thunder Require Import Sql.Model Sql.ModelExact Sql.BatchProofs Sql.BatchExact.
+From Coq Require Import Permutation.
+From Thunder Require Import Sql.Model Sql.ModelExact Sql.BatchProofs Sql.BatchExact Sql.ModelCheck Sql.GroupOrder.
 Import ListNotations.
 Open Scope string_scope.
 
@@ -212,6 +213,24 @@ Theorem c10_one_group_per_shape :
 Proof. exact batch_groups_bound. Qed.
 Print Assumptions c10_one_group_per_shape.
 
+(** The order in which makeBatchQuery ORs its groups is irrelevant to what is fetched; the evaluator of the
+    correspondence therefore accepts the combined statement with its groups in any order -- and nothing else:
+    what it accepts is the statement of a permutation of the model's groups. *)
+Theorem c10_group_order_is_irrelevant :
+  forall gs gs' contents, Permutation gs gs' ->
+    select_rows (WBatch gs) contents = select_rows (WBatch gs') contents.
+Proof. exact select_rows_perm. Qed.
+Print Assumptions c10_group_order_is_irrelevant.
+
+Theorem c10_evaluator_accepts_only_permutations_of_the_groups :
+  forall tbl cols gs text args,
+    batch_stmt_matches tbl cols gs text args = true ->
+    exists gs', Permutation gs gs'
+                /\ text = sql_text (SSelect tbl cols (WBatch gs') None)
+                /\ args = sql_args (SSelect tbl cols (WBatch gs') None).
+Proof. exact batch_stmt_matches_sound. Qed.
+Print Assumptions c10_evaluator_accepts_only_permutations_of_the_groups.
+
 (** Which calls are batched at all: a call with SelectOptions (Limit, OrderBy, AllowNoIndex, ForUpdate, index
     hints, free text -- any options value, FullScanQuery always passes one) is answered by a statement of
     its own carrying those options, on every context; only a call without options, outside a transaction,
@@ -290,6 +309,15 @@ Example ex_batched_rows :
      [[("id", DInt 10%Z); ("name", DStr "bob"); ("nick", DNull)]];
      [[("id", DInt 20%Z); ("name", DStr "al"); ("nick", DStr "a")]]].
 Proof. vm_compute. reflexivity. Qed.
+
+Example ex_group_order :
+  batch_stmt_matches "users" ["id"; "name"; "nick"]
+    [(["name"; "nick"], [[DStr "al"; DNull]]); (["id"], [[DInt 10%Z]; [DInt 20%Z]])]
+    "SELECT id, name, nick FROM users WHERE id IN (?, ?) OR (name=? AND nick IS NULL)" [DInt 10%Z; DInt 20%Z; DStr "al"] = true
+  /\ batch_stmt_matches "users" ["id"; "name"; "nick"]
+    [(["name"; "nick"], [[DStr "al"; DNull]]); (["id"], [[DInt 10%Z]; [DInt 20%Z]])]
+    "SELECT id, name, nick FROM users WHERE id IN (?, ?) OR (name=? AND nick IS NULL)" [DStr "al"; DInt 10%Z; DInt 20%Z] = false.
+Proof. split; vm_compute; reflexivity. Qed.
 
 Example ex_batched_statement :
   sql_text (batch_stmt w_users [[("id", GInt KI64 "" 10%Z)]; [("nick", GNil)]; [("id", GInt KI64 "" 20%Z)]; [("nick", GStr "" "a")]])
